@@ -38,13 +38,16 @@ def run(prop, tier, seed):
         raise core.ToolError("no check for %s" % prop)
     r = driver.Run(prop, tier, seed)
     rules, assume = [], list(ASSUME_COMMON)
+    only = os.environ.get("VERIF_ONLY")     # development aid: only the batches whose name contains this
     for m in fams:
-        for (module, cfg, must) in m.mc(prop, tier):
+        for (module, cfg, must) in ([] if only else m.mc(prop, tier)):
             r.mc_run(module, cfg, must_cover=must)
-        for (name, module, cfg) in m.exports(prop, tier):
+        for (name, module, cfg) in ([] if only else m.exports(prop, tier)):
             eps = r.export(module, cfg)
             r.batch("%s-%s" % (m.FAMILY, name), m.TRACE_SPEC, eps, nontrivial=m.nontrivial)
         for name, spec in m.episodes(prop, tier, seed).items():
+            if only and only not in "%s-%s" % (m.FAMILY, name):
+                continue
             eps, profile = spec[0], spec[1]
             jobs = spec[2] if len(spec) > 2 else 1      # executor processes for slow episodes
             r.batch("%s-%s" % (m.FAMILY, name), m.TRACE_SPEC, eps, profile=profile, nontrivial=m.nontrivial, jobs=jobs)
